@@ -1057,6 +1057,144 @@ theorem DInv.push (hM : TreeL g root M) {c p : Nat} {inter : Option (Nat × Nat)
 
 end dfs
 
+/-- the state after the first iteration (which pops `(root, None)`) -/
+theorem dInv_init {g : G} {root : Nat} {M : List (Nat × Nat)} (hM : TreeL g root M)
+    (nb : List Nat) (hnbnd : nb.Nodup) (hnb : ∀ u, u ∈ nb ↔ (root, u) ∈ M) :
+    DInv g root M [] ((nb.map (fun u => (u, some (root, u)))).reverse ++ []) where
+  ok := trivial
+  sub := by simp
+  entry := by
+    intro x hx
+    rw [List.append_nil, List.mem_reverse, List.mem_map] at hx
+    obtain ⟨u, hu, rfl⟩ := hx
+    have huM := (hnb u).1 hu
+    refine ⟨root, rfl, huM, by simp, ?_⟩
+    simpa using hM.child_ne_root huM
+  st_nodup := by
+    rw [List.append_nil, List.map_reverse, List.map_map]
+    have hid : (nb.map ((fun x : Nat × Option (Nat × Nat) => x.1) ∘
+        fun u => (u, some (root, u)))) = nb := by simp [Function.comp_def]
+    rw [hid]
+    exact (List.reverse_perm nb).symm.nodup hnbnd
+  complete := by
+    intro pc hpc
+    by_cases h1 : pc.1 = root
+    · right; left
+      have hru : (root, pc.2) ∈ M := by rw [← h1]; exact hpc
+      rw [List.append_nil, List.mem_reverse, List.mem_map]
+      refine ⟨pc.2, (hnb pc.2).2 hru, ?_⟩
+      rw [← h1]
+    · right; right
+      simpa using h1
+
+/-- whatever the iteration order of the neighbour sets, the second loop lists every tree edge
+exactly once, parent before child -/
+theorem spanDfs_spec {g t : G} {root : Nat} {M : List (Nat × Nat)} (hM : TreeL g root M)
+    (hadj : ∀ q u, u ∈ t.adj q ↔ (q, u) ∈ M ∨ (u, q) ∈ M)
+    (ord : Nat → List Nat → List Nat) (hord : ∀ q l, (ord q l).Perm l) :
+    ∀ (fuel : Nat) (out : List (Nat × Nat)) (st : List (Nat × Option (Nat × Nat))),
+      DInv g root M out st → g.n ≤ out.length + fuel →
+      SpanOK g [root] (spanDfs t ord fuel out st) ∧
+        (spanDfs t ord fuel out st).length + 1 = g.n := by
+  intro fuel
+  induction fuel with
+  | zero =>
+    intro out st h hf
+    have := h.bound hM
+    omega
+  | succ fuel ih =>
+    intro out st h hf
+    cases st with
+    | nil =>
+      have : spanDfs t ord (fuel + 1) out [] = out := by unfold spanDfs; rfl
+      rw [this]
+      exact ⟨h.ok, h.finished hM⟩
+    | cons x st' =>
+      obtain ⟨c, inter⟩ := x
+      obtain ⟨p, hp1, hpM, _, _⟩ := h.entry (c, inter) (by simp)
+      simp only at hp1 hpM
+      subst hp1
+      rw [spanDfs_some]
+      refine ih _ _ (h.push hM rfl _ ?_ ?_) ?_
+      · exact List.Pairwise.filter _ ((hord c _).symm.nodup (t.nodup_adj c))
+      · intro u
+        simp only [List.mem_filter, (hord c _).mem_iff, hadj, bne_iff_ne, ne_eq]
+        constructor
+        · rintro ⟨h1 | h1, h2⟩
+          · exact h1
+          · exact absurd (hM.parent_unique h1 hpM) h2
+        · intro h1
+          refine ⟨Or.inl h1, fun h2 => ?_⟩
+          subst h2
+          exact hM.no_back h1 hpM
+      · simp only [List.length_append, List.length_cons, List.length_nil]
+        omega
+
+/-- neighbours in the graph `CouplingGraph(mst)` -/
+theorem mem_adj_tree (M : List (Nat × Nat)) (q u : Nat) :
+    u ∈ (G.mk (rawMax M + 1) (M.map norm).eraseDups).adj q ↔ (q, u) ∈ M ∨ (u, q) ∈ M := by
+  rw [G.mem_adj, hasEdge_mk]
+  constructor
+  · rintro ⟨_, e, he, h | h⟩
+    · exact Or.inl (h ▸ he)
+    · exact Or.inr (h ▸ he)
+  · rintro (h | h)
+    · have := (rawMax_ge M _ h).2
+      exact ⟨by simp only at this ⊢; omega, _, h, Or.inl rfl⟩
+    · have := (rawMax_ge M _ h).1
+      exact ⟨by simp only at this ⊢; omega, _, h, Or.inr rfl⟩
+
+/-- **`get_rooted_minimum_span` for arbitrary iteration orders.**  For a well-formed connected
+graph and a root `< n` the call does not raise, and whatever the orders `ord1`, `ord2` in
+which the two loops iterate their sets, the result is accepted by `validSpan`. -/
+theorem rootedSpan_valid (g : G) (hwf : g.WF) (ord1 ord2 : Nat → List Nat → List Nat)
+    (h1 : ∀ q l, (ord1 q l).Perm l) (h2 : ∀ q l, (ord2 q l).Perm l)
+    (root : Nat) (hroot : root < g.n) (hconn : ∀ v, v < g.n → Reach g root v) :
+    ∃ res, g.rootedSpan ord1 ord2 root = some res ∧ validSpan g root res = true := by
+  obtain ⟨hok, hlen⟩ := spanBfs_spec g hwf ord1 h1 root hroot hconn g.n [] [] [root] [root]
+    (bInv_init g root) (by simp)
+  generalize hMdef : spanBfs g ord1 g.n [] [root] [root] = M at hok hlen
+  have hM : TreeL g root M := ⟨hok, hlen, hroot⟩
+  have hmk : mk? M none = some ⟨rawMax M + 1, (M.map norm).eraseDups⟩ := by
+    rw [mk?_none_some_iff]
+    refine ⟨fun e he heq => ?_, rfl⟩
+    have h1 : (e.1, e.2) ∈ M := he
+    have h2 : (e.2, e.1) ∈ M := by
+      have : (e.2, e.1) = (e.1, e.2) := by rw [heq]
+      rw [this]; exact he
+    exact hM.no_back h1 h2
+  have hrt : ¬ root ≥ rawMax M + 1 := by
+    cases hMc : M with
+    | nil =>
+      rw [hMc] at hlen
+      simp at hlen
+      omega
+    | cons a rest =>
+      have ha : a.1 ∈ [root] := by rw [hMc] at hok; exact hok.1.2.1
+      simp only [List.mem_cons, List.not_mem_nil, or_false] at ha
+      have := (rawMax_ge M a (by rw [hMc]; simp)).1
+      rw [← hMc]
+      omega
+  refine ⟨spanDfs ⟨rawMax M + 1, (M.map norm).eraseDups⟩ ord2 (g.n + 1) [] [(root, none)], ?_, ?_⟩
+  · unfold G.rootedSpan
+    rw [if_neg (by omega)]
+    simp only [hMdef, hmk, if_neg hrt]
+  · rw [spanDfs_none]
+    have hnb : ∀ u, u ∈ (ord2 root ((G.mk (rawMax M + 1) (M.map norm).eraseDups).adj root)).filter
+        (fun _ => true) ↔ (root, u) ∈ M := by
+      intro u
+      simp only [List.mem_filter, and_true, (h2 root _).mem_iff, mem_adj_tree]
+      constructor
+      · rintro (h | h)
+        · exact h
+        · exact absurd rfl (hM.child_ne_root h)
+      · exact Or.inl
+    obtain ⟨r1, r2⟩ := spanDfs_spec hM (mem_adj_tree M) ord2 h2 g.n [] _
+      (dInv_init hM _ (List.Pairwise.filter _ ((h2 root _).symm.nodup (G.nodup_adj _ root))) hnb)
+      (by simp)
+    rw [validSpan_eq, Bool.and_eq_true, Bool.and_eq_true, sFold_iff, beq_iff_eq, decide_eq_true_eq]
+    exact ⟨⟨r2, hroot⟩, rfl, r1⟩
+
 /-! ### non-vacuity -/
 section examples
 
